@@ -204,7 +204,7 @@ func checkPoolPartition(r *Run) {
 			if _, n := calleeName(&c.Call); n != "(types.Int).Add" {
 				return
 			}
-			if strings.Contains(argTerm(P.callTerm(c), 1).String(), "GetTokens(") && site == nil {
+			if (strings.Contains(argTerm(P.callTerm(c), 1).String(), "GetTokens(") || strings.HasSuffix(argTerm(P.callTerm(c), 1).String(), ".StakedTokens")) && site == nil {
 				site = c
 			}
 		})
